@@ -222,6 +222,9 @@ def stage_toy(ctx):
             if rec["k"] not in first:
                 first[rec["k"]] = rec
                 ctx.sample({"toy_case": cname, "rec": rec})
+            # for the binding self-test: a signing case off the paths of the known defects (recovery id 0 or 1)
+            if rec["k"] == "sign" and "plain" not in first and rec["recid"] < 2 and cname == "p43":
+                first["plain"] = rec
         ctx.tlc("MC_MsgReplay", "MC_MsgReplay_%s_%s" % (cname, tier), on_record=on, keep_records=False, timeout=3000,
                 coverage=False)
         fails, counts = st.finish()
@@ -233,12 +236,12 @@ def stage_toy(ctx):
         if st.n == 0:
             raise MachineryError("no toy cases exported for " + cname)
     # binding self-test: a corrupted expectation must be noticed
-    if "sign" in first:
-        bad = copy.deepcopy(first["sign"])
+    if "plain" in first:
+        bad = copy.deepcopy(first["plain"])
         bad["tc"] = bad["tc"][:-3] + ("B" if bad["tc"][-3] != "B" else "C") + bad["tc"][-2:]
         f, _ = _toy_chunk((("p43", CURVES["p43"]), [bad]))
         ctx.selftest("toy_replay_rejects_corrupted_signature_text", any(k.startswith("C17|sign|") for k, _, _ in f))
-        bad = copy.deepcopy(first["sign"])
+        bad = copy.deepcopy(first["plain"])
         bad["pc"][1]["exp"] = True
         f, _ = _toy_chunk((("p43", CURVES["p43"]), [bad]))
         ctx.selftest("toy_replay_rejects_corrupted_verdict", any("rel=otherkey" in k for k, _, _ in f))
